@@ -51,7 +51,8 @@ type GroupDef struct {
 //	            new request for it with other Groups, which is reconciled
 //	start       kubelet starts the bound pod (Pending -> Running), update event delivered
 //	complete    the running pod reaches Phase (Succeeded / Failed), update event delivered
-//	deletePod   the pod object is removed, delete event delivered
+//	deletePod   the pod object is removed, delete event delivered; Graceful (bound pods only): the first deletePod stamps
+//	            the deletion time and the pod keeps running (update event), a later deletePod removes it
 //	deleteReq   the BindRequest is removed (scheduler clean-up), delete event delivered
 //	syncNode    SyncForNode(Node)
 //	sync        Sync()
@@ -69,6 +70,9 @@ type Op struct {
 	Choices []int       `json:"choices,omitempty"`
 	NoLimit bool        `json:"noBackoffLimit,omitempty"` // bind: the request has no BackoffLimit (one failure is terminal for the scheduler)
 	Start   bool        `json:"start,omitempty"`          // bind/retry: the kubelet starts the pod right after a successful bind
+	// deletePod: the pod has a finalizer / a termination grace period: the first deletePod only stamps the deletion
+	// time (update event; the pod keeps running and keeps its GPU share), a later deletePod of the same pod removes it
+	Graceful bool `json:"graceful,omitempty"`
 }
 
 type Case struct {
@@ -238,6 +242,9 @@ func (g *genState) genSimple(t *rapid.T, focus string, inBatch bool) Op {
 			op.Faults = genFault(t, 12, 5, "error", "crash")
 		case "deletePod", "deleteReq":
 			op.Faults = genFault(t, 12, 5, "error", "crash")
+			if ty == "deletePod" {
+				op.Graceful = sim.Chance(t, 35, "gracefulDelete")
+			}
 		}
 	}
 	return op
@@ -581,8 +588,33 @@ func (w *world) opFunc(op Op, id int, res *opResult) func() {
 				res.skipped = true
 				return
 			}
+			if op.Graceful && p.DeletionTimestamp == nil && p.Spec.NodeName != "" {
+				// the API server stamps the deletion time; the kubelet (grace period) or a finalizer keeps the object,
+				// the containers still run
+				old := p.DeepCopy()
+				p.Finalizers = append(p.Finalizers, "batch.kubernetes.io/job-tracking")
+				must(s.Base.Update(ctx, p))
+				must(s.Base.Delete(ctx, p.DeepCopy()))
+				cur := w.getPod(pi)
+				if cur == nil || cur.DeletionTimestamp == nil {
+					panic("graceful delete did not leave a terminating pod")
+				}
+				if len(sim.ViewPod(cur).Groups) > 0 && (cur.Status.Phase == v1.PodRunning || cur.Status.Phase == v1.PodPending) {
+					w.class("labelled-pod-terminating-gracefully")
+				}
+				// (an update that only stamps the deletion time obliges nobody to sync: no group is addressed)
+				s.Begin(id, op.Faults)
+				w.proc.PodUpdated(old, cur)
+				return
+			}
 			res.addressed = sim.ViewPod(p).Groups
-			if err := s.Base.Delete(ctx, p.DeepCopy()); err != nil && !apierrors.IsNotFound(err) {
+			if p.DeletionTimestamp != nil && len(p.Finalizers) > 0 {
+				p.Finalizers = nil
+				must(s.Base.Update(ctx, p)) // the store drops an object under deletion once its last finalizer is gone
+				if w.getPod(pi) != nil {
+					panic("terminating pod not removed with its last finalizer")
+				}
+			} else if err := s.Base.Delete(ctx, p.DeepCopy()); err != nil && !apierrors.IsNotFound(err) {
 				panic(err)
 			}
 			// garbage collection of the ConfigMaps the pod owns
